@@ -111,7 +111,10 @@ void AsmContext::init()
   strings_have_dots      = false;
   strings_have_slashes   = false;
   can_tick_end_string    = false;
-  pass_1_write_disable   = false;
+  // As in the msp430 entry of cpu_list: pass 2 reads the byte at an
+  // instruction's address as a flag left by pass 1, so pass 1 must not put
+  // code there ('mov.w #0, r1' is 0x4301: its low byte looked like the flag).
+  pass_1_write_disable   = true;
   ignore_number_postfix  = false;
   numbers_dont_have_dots = false;
   parse_directive        = nullptr;
